@@ -14,6 +14,13 @@ Every run:
      cache, shared compiled code, spawned clones); each concurrent trial has a sequential twin in a fresh process and
      the per-evaluation results must be equal; every race report is mapped back (file:line of the two racing frames)
      to a pair of generated sites, and the extracted model must agree that this pair can race (pair_ok = false);
+     first-use rounds (harness/cmd/c09obs/firstuse.go): in one process, round after round, 2..16 evaluations are released
+     together on Go types the process has never seen (reflect.StructOf: a record type of 8..250 fields, an inner type, a
+     wrapper, slices / maps / pointers over them), each handing a value of its own to its script through one of the routes
+     an embedder has (object.NewProxy, object.NewGoType, the raw pointer or the struct by value as a global, inside a
+     slice / map / field, a host builtin wrapping it at run time), on a module nobody has imported yet and on a codec
+     registered a moment ago; every evaluation must return what its Go value holds (read with reflect) and what the
+     sequential twin returns;
   4. oracle      (independent of the model) no race report, no crash, results equal to the sequential run; on the
      site list: a Python re-implementation of "two conflicting sites of one location share no excluding lock".
 """
@@ -115,6 +122,39 @@ def run_trial(exe, jobs, mode, moddir, register):
     except (ValueError, KeyError):
         res = None
     return rc, res, err
+
+
+def run_req(exe, req, key, timeout=240):
+    """one request to c09obs -> (exit status, the list under `key` or None, stderr)"""
+    env = dict(os.environ, GORACE="halt_on_error=0")
+    try:
+        p = subprocess.run([exe], input=json.dumps(req).encode(), stdout=subprocess.PIPE, stderr=subprocess.PIPE,
+                           env=env, timeout=timeout)
+        rc, out, err = p.returncode, p.stdout.decode("utf-8", "replace"), p.stderr.decode("utf-8", "replace")
+    except subprocess.TimeoutExpired:
+        return 124, None, "timeout"
+    try:
+        res = json.loads(out)[key]
+    except (ValueError, KeyError):
+        res = None
+    return rc, res, err
+
+
+FU_MODULES = 128
+
+
+def write_modules(moddir):
+    open(os.path.join(moddir, "c09mod.risor"), "w").write("func add(a, b) { return a + b }\n")
+    open(os.path.join(moddir, "c09mod2.risor"), "w").write("func twice(x) { return x * 2 }\n")
+    for _k in range(3, 9):
+        open(os.path.join(moddir, "c09mod%d.risor" % _k), "w").write("base := %d\nfunc plus(x) { return x + base }\n" % _k)
+    # one module per first-use round: nobody has imported it when the round starts
+    for _k in range(FU_MODULES):
+        open(os.path.join(moddir, "fu%d.risor" % _k), "w").write("base := %d\nfunc plus(x) { return x + base }\n" % _k)
+
+
+def gen_firstuse(rng, quick):
+    return {"rounds": (24 if quick else 60) + rng.below(8), "workers": rng.choice([2, 4, 8, 8, 16]), "seed": 1 + rng.below(1 << 30)}
 
 
 def gen_jobs(rng, guarded_only):
@@ -221,10 +261,7 @@ def run(res):
     try:
         moddir = os.path.join(work, "mods")
         os.makedirs(moddir)
-        open(os.path.join(moddir, "c09mod.risor"), "w").write("func add(a, b) { return a + b }\n")
-        open(os.path.join(moddir, "c09mod2.risor"), "w").write("func twice(x) { return x * 2 }\n")
-        for _k in range(3, 9):
-            open(os.path.join(moddir, "c09mod%d.risor" % _k), "w").write("base := %d\nfunc plus(x) { return x + base }\n" % _k)
+        write_modules(moddir)
         rng = C.Rng(res.seed)
         ntr_g = 20 if quick else 150
         ntr_f = 20 if quick else 150
@@ -243,16 +280,61 @@ def run(res):
             conc = run_trial(obs, jobs, "conc", moddir, reg)
             seq = run_trial(obs, jobs, "seq", moddir, False)
             return conc, seq
+        fu_trials = [gen_firstuse(rng, quick) for _ in range(8 if quick else 60)]
+
+        def one_fu(fu):
+            conc = run_req(obs, dict(fu, mode="firstuse-conc", dir=moddir), "firstuse")
+            seq = run_req(obs, dict(fu, mode="firstuse-seq", dir=moddir), "firstuse")
+            return conc, seq
         with ThreadPoolExecutor(max_workers=6) as ex:
             outs = list(ex.map(one, trials))
-        C.log("C09: %d concurrent trials done" % len(trials))
+            fu_outs = list(ex.map(one_fu, fu_trials))
+        C.log("C09: %d concurrent trials and %d first-use trials done" % (len(trials), len(fu_trials)))
         site_by_pos = {}
         for k, s in enumerate(sites):
             site_by_pos.setdefault(s["pos"], []).append(k)
         pair_queries = {}
-        nreports = 0
         stats = {"trials": len(trials), "evaluations": 0, "race_reports": 0, "reports_mapped_to_site_pairs": 0,
                  "results_equal_to_sequential": 0, "clean_trials": 0}
+        def judge_reports(case, kind, reports):
+            for rp in reports:
+                acc = rp["accesses"]
+                idx = []
+                for a in acc:
+                    hit = None
+                    for fn, pos in a["frames"]:
+                        if pos in site_by_pos:
+                            hit = pos
+                            break
+                    idx.append(hit)
+                top = [a["frames"][0] if a["frames"] else ("?", "?") for a in acc]
+                if len(idx) == 2 and idx[0] and idx[1]:
+                    stats["reports_mapped_to_site_pairs"] += 1
+                    locs = {sites[site_by_pos[idx[0]][0]]["loc"], sites[site_by_pos[idx[1]][0]]["loc"]}
+                    for i in site_by_pos[idx[0]]:
+                        for j in site_by_pos[idx[1]]:
+                            if sites[i]["loc"] == sites[j]["loc"]:
+                                pair_queries[(i, j)] = rp
+                    item = dict(case, why="data race between %s and %s on %s" % (idx[0], idx[1], "/".join(sorted(locs))),
+                                report=rp["text"])
+                    nontrivial.add(("race", idx[0], idx[1]))
+                    if locs <= set(KNOWN_LOCS) and known_ok and kind == "full":
+                        known_hits.append(item)
+                    else:
+                        oracle_viol.append(item)
+                else:
+                    # an object created on the unlocked converter path and published through the unprotected registries
+                    # (no happens-before edge to its readers) belongs to the same class
+                    through = [fn for a in acc for fn, _ in a["frames"] if any(x in fn for x in KNOWN_PATH)]
+                    item = dict(case, why="data race at a location the translator does not list: %s / %s" % (top[0], top[1] if len(top) > 1 else "?"),
+                                report=rp["text"])
+                    if through and known_ok and kind == "full":
+                        item["why"] = "data race on a converter object published through the unlocked path (%s): %s / %s" % (
+                            through[0], top[0], top[1] if len(top) > 1 else "?")
+                        known_hits.append(item)
+                    else:
+                        oracle_viol.append(item)
+
         for (kind, jobs, reg), ((rc, cres, cerr), (src, sres, serr)) in zip(trials, outs):
             evals += len(jobs)
             stats["evaluations"] += len(jobs)
@@ -298,46 +380,67 @@ def run(res):
                 stats["results_equal_to_sequential"] += 1
             if not reports and rc == 0:
                 stats["clean_trials"] += 1
-            for rp in reports:
-                nreports += 1
-                acc = rp["accesses"]
-                idx = []
-                for a in acc:
-                    hit = None
-                    for fn, pos in a["frames"]:
-                        if pos in site_by_pos:
-                            hit = pos
-                            break
-                    idx.append(hit)
-                top = [a["frames"][0] if a["frames"] else ("?", "?") for a in acc]
-                if len(idx) == 2 and idx[0] and idx[1]:
-                    stats["reports_mapped_to_site_pairs"] += 1
-                    locs = {sites[site_by_pos[idx[0]][0]]["loc"], sites[site_by_pos[idx[1]][0]]["loc"]}
-                    for i in site_by_pos[idx[0]]:
-                        for j in site_by_pos[idx[1]]:
-                            if sites[i]["loc"] == sites[j]["loc"]:
-                                pair_queries[(i, j)] = rp
-                    item = dict(case, why="data race between %s and %s on %s" % (idx[0], idx[1], "/".join(sorted(locs))),
-                                report=rp["text"])
-                    nontrivial.add(("race", idx[0], idx[1]))
-                    if locs <= set(KNOWN_LOCS) and known_ok and kind == "full":
-                        known_hits.append(item)
-                    else:
-                        oracle_viol.append(item)
-                else:
-                    # an object created on the unlocked converter path and published through the unprotected registries
-                    # (no happens-before edge to its readers) belongs to the same class
-                    through = [fn for a in acc for fn, _ in a["frames"] if any(x in fn for x in KNOWN_PATH)]
-                    item = dict(case, why="data race at a location the translator does not list: %s / %s" % (top[0], top[1] if len(top) > 1 else "?"),
-                                report=rp["text"])
-                    if through and known_ok and kind == "full":
-                        item["why"] = "data race on a converter object published through the unlocked path (%s): %s / %s" % (
-                            through[0], top[0], top[1] if len(top) > 1 else "?")
-                        known_hits.append(item)
-                    else:
-                        oracle_viol.append(item)
+            judge_reports(case, kind, reports)
             if rc not in (0, 66) and not crashed:
                 oracle_viol.append(dict(case, why="concurrent run exited with status %s" % rc, report=cerr[-800:]))
+        # ---- first-use rounds: fresh Go types / modules / codecs met by several evaluations at once
+        fstats = {"trials": len(fu_trials), "rounds": 0, "evaluations": 0, "as_the_go_value": 0, "equal_to_sequential": 0,
+                  "routes": {}, "race_reports": 0}
+        for fu, ((rc, cres, cerr), (src, sres, serr)) in zip(fu_trials, fu_outs):
+            case = {"stage": "dynamic-firstuse", "firstuse": fu}
+            fstats["rounds"] += fu["rounds"]
+            evals += fu["rounds"] * fu["workers"]
+            stats["evaluations"] += fu["rounds"] * fu["workers"]
+            if sres is None or src != 0:
+                corr.append(dict(case, impl="sequential twin of the first-use rounds failed (exit %s): %s" % (src, serr[-300:]), model="-"))
+                continue
+            # the harness's own expectation must hold when the evaluations run alone; otherwise it is the expectation that is wrong
+            wrong_alone = [r for r in sres if r.get("error") or r.get("got") != r.get("want")]
+            if wrong_alone:
+                r = wrong_alone[0]
+                corr.append(dict(case, impl="run alone, evaluation (round %d, worker %d, route %s) returned %r (error %r)" % (
+                    r["round"], r["worker"], r["route"], r.get("got"), r.get("error")), model="the Go value holds %r" % (r.get("want"),),
+                    script=r.get("script")))
+                continue
+            reports = parse_races(cerr, C.REPO)
+            stats["race_reports"] += len(reports)
+            fstats["race_reports"] += len(reports)
+            if cres is None:
+                m0 = re.search(r"^(fatal error: |panic: )", cerr, re.M)
+                txt = cerr[m0.start():m0.start() + 6000] if m0 else cerr[-3000:]
+                oracle_viol.append(dict(case, why="the process running the first-use rounds died (exit %s): %s" % (
+                    rc, (re.search(r"fatal error: [^\n]*", txt) or re.search(r"panic: [^\n]*", txt) or [txt[-200:]])[0]),
+                    report=txt[-1500:]))
+                continue
+            seq_by = {(r["round"], r["worker"]): r for r in sres}
+            first_bad = None
+            for r in cres:
+                fstats["evaluations"] += 1
+                fstats["routes"][r["route"]] = fstats["routes"].get(r["route"], 0) + 1
+                tw = seq_by.get((r["round"], r["worker"]), {})
+                ok_want = not r.get("error") and r.get("got") == r.get("want")
+                ok_seq = r.get("error") == tw.get("error") and r.get("got") == tw.get("got")
+                fstats["as_the_go_value"] += 1 if ok_want else 0
+                fstats["equal_to_sequential"] += 1 if ok_seq else 0
+                if not (ok_want and ok_seq) and first_bad is None:
+                    first_bad = r
+                nontrivial.add(("firstuse", r["route"], r["fields"] // 50))
+            if first_bad is not None:
+                r = first_bad
+                mates = sorted({x["route"] for x in cres if x["round"] == r["round"]})
+                oracle_viol.append(dict(case, why="first use of Go types new to the process by %d evaluations at once (round %d, routes %s): evaluation "
+                                        "%d (route %s, record type of %d fields) %s; alone it returns what its Go value holds, %r" % (
+                                            fu["workers"], r["round"], mates, r["worker"], r["route"], r["fields"],
+                                            ("failed with %r" % r["error"]) if r.get("error") else ("returned %r" % (r.get("got"),)), r.get("want")),
+                                        script=r.get("script")))
+            elif not reports and rc == 0:
+                stats["clean_trials"] += 1
+            judge_reports(case, "firstuse", reports)
+            if rc not in (0, 66):
+                oracle_viol.append(dict(case, why="the first-use rounds exited with status %s" % rc, report=cerr[-800:]))
+        stats["first_use"] = fstats
+        if len(samples) < 6 and fu_trials:
+            samples.append({"stage": "dynamic-firstuse", "firstuse": fu_trials[0], "routes": fstats["routes"]})
         # the model must agree that every observed racing pair of sites can race
         if pair_queries:
             q = lines[:len(sites)] + ["pair %d %d" % p for p in pair_queries]
@@ -360,7 +463,11 @@ def run(res):
                    "2/4/8/16 simultaneous evaluations (own VM, own globals) in a -race build, programs drawn from %s (guarded stream) "
                    "and additionally %s (first use of 16 disjoint families of Go types through proxy calls), half of the evaluations "
                    "meeting on the same family; optionally a host goroutine registering codecs meanwhile; each trial has a sequential "
-                   "twin in a fresh process. Non-trivial = distinct write sites + distinct racing site pairs observed." % (
+                   "twin in a fresh process. First-use rounds: 24..31 rounds per process (60..67 thorough), in each 2..16 evaluations released "
+                   "together on Go types made with reflect.StructOf that the process has never seen (record of 8..250 fields, inner struct, "
+                   "wrapper, slices / maps / pointers over them), handed over by object.NewProxy / NewGoType / raw pointer / by value / in a "
+                   "slice, map or field / wrapped by a host builtin at run time, plus a module nobody has imported and a codec registered "
+                   "just before; results must equal the Go values (reflect) and the sequential twin. Non-trivial = distinct write sites + distinct racing site pairs observed." % (
                        facts["packages"], facts["functions"], facts["package_vars_never_written_after_init"], len(facts["locations"]),
                        len(sites), len(facts["locks"]), GUARDED, PROXY))
     cov["samples"] = samples + [{"site": s} for s in sites[:3]]
@@ -384,6 +491,8 @@ def run(res):
     if known_hits:      # unreachable while KNOWN_ID is None; kept for a future open class
         res.known_finding("%d observations in the open class %s, e.g. %s" % (len(known_hits), KNOWN_ID, known_hits[0]["why"][:200]))
     dyn_viol = [v for v in oracle_viol if not v.get("static")]
+    # an evaluation that returned something else than alone says more than the race reports of the same rounds: list those first
+    dyn_viol.sort(key=lambda v: 0 if v.get("stage") == "dynamic-firstuse" and v.get("script") else 1)
     for v in dyn_viol[:10]:
         v.update({"property": PROP, "kind": "oracle-violation"})
         res.violation(v)
@@ -404,7 +513,7 @@ def run(res):
 
 def replay(data):
     print(json.dumps({k: v for k, v in data.items() if k != "report"}, indent=1)[:4000])
-    if not data.get("jobs"):
+    if not data.get("jobs") and not data.get("firstuse"):
         return 0
     obs, err = C.go_build("c09obs", race=True)
     if not obs:
@@ -412,10 +521,20 @@ def replay(data):
         return 2
     work = tempfile.mkdtemp(prefix="c09r-")
     try:
-        open(os.path.join(work, "c09mod.risor"), "w").write("func add(a, b) { return a + b }\n")
-        open(os.path.join(work, "c09mod2.risor"), "w").write("func twice(x) { return x * 2 }\n")
-        for _k in range(3, 9):
-            open(os.path.join(work, "c09mod%d.risor" % _k), "w").write("base := %d\nfunc plus(x) { return x + base }\n" % _k)
+        write_modules(work)
+        for attempt in range(5 if data.get("firstuse") else 0):
+            rc, resu, err = run_req(obs, dict(data["firstuse"], mode="firstuse-conc", dir=work), "firstuse")
+            n = err.count("WARNING: DATA RACE")
+            bad = [r for r in (resu or []) if r.get("error") or r.get("got") != r.get("want")]
+            print("attempt %d: exit %s, %d race reports, %s evaluations not returning what their Go value holds" % (
+                attempt, rc, n, len(bad) if resu is not None else "process died;"))
+            for r in bad[:3]:
+                print("  round %d worker %d route %s: error %r got %r want %r" % (r["round"], r["worker"], r["route"], r.get("error"), r.get("got"), r.get("want")))
+            if n or bad or rc != 0:
+                print(err[:3000])
+                return 1
+        if data.get("firstuse"):
+            return 0
         for attempt in range(5):
             rc, resu, err = run_trial(obs, data["jobs"], "conc", work, data.get("register_codecs_concurrently", False))
             n = err.count("WARNING: DATA RACE")
